@@ -34,14 +34,27 @@ func c19FSM() *FSM {
 	return newFSM(p)
 }
 
-func c19Msg(body []byte) []byte {
+// c19Msg frames the body the way the session does: the header length field is len(body)+delta; recvMsg reads that
+// many bytes from the wire into a zeroed buffer of packet.MaxLen bytes and hands the whole buffer to the decoder
+// ("pad" = 1), so a length that understates the message cuts it and one that overstates it pulls in further bytes.
+func c19Msg(body []byte) ([]byte, int) {
+	delta := vParam("delta")
+	if delta > 0 {
+		body = append(body, ndBytes(delta)...)
+	} else if delta < 0 {
+		body = body[:len(body)+delta]
+	}
 	l := 19 + len(body)
-	m := make([]byte, 0, l)
+	m := make([]byte, 0, packet.MaxLen)
 	for i := 0; i < 16; i++ {
 		m = append(m, 0xff)
 	}
 	m = append(m, byte(l>>8), byte(l), packet.UpdateMsg)
-	return append(m, body...)
+	m = append(m, body...)
+	if pad := vParam("pad"); pad > 0 {
+		m = m[:len(m)+pad] // the receive buffer's zero bytes behind the message (bounded to "pad" bytes, really 4096-l)
+	}
+	return m, len(body)
 }
 
 func c19NLRISize(n *packet.NLRI, addPath bool) int {
@@ -88,6 +101,9 @@ func c19Oracle(u *packet.BGPUpdate, bodyLen int, opt *packet.DecodeOptions) {
 		}
 	}
 	vAssert(wsz == int(u.WithdrawnRoutesLen), "C19.lengths.withdrawn")
+	// known finding C19-1: decodePathAttrs loops "while consumed < total", so a last attribute that runs past the
+	// total path attribute length is accepted (the repair is blocked by TestFSM255UpdatesIPv6, which sends such a message)
+	vKnown("C19-1", asz > int(u.TotalPathAttrLen))
 	vAssert(asz == int(u.TotalPathAttrLen), "C19.lengths.attributes")
 	vAssert(4+int(u.WithdrawnRoutesLen)+int(u.TotalPathAttrLen)+nsz == bodyLen, "C19.lengths.nlri")
 	// (b) attribute contents match their declared lengths
@@ -148,14 +164,15 @@ func c19Opt() *packet.DecodeOptions {
 
 func c19Run(body []byte) {
 	opt := c19Opt()
-	msg, err := packet.Decode(bytes.NewBuffer(c19Msg(body)), opt)
+	wire, bodyLen := c19Msg(body)
+	msg, err := packet.Decode(bytes.NewBuffer(wire), opt)
 	vReach("decoded")
 	if err != nil {
 		return
 	}
 	u, ok := msg.Body.(*packet.BGPUpdate)
 	vAssert(ok, "C19.body.update")
-	c19Oracle(u, len(body), opt)
+	c19Oracle(u, bodyLen, opt)
 }
 
 // every UPDATE body of k bytes (all bytes symbolic)
